@@ -407,3 +407,15 @@ def other_is_whole_input_event(prog, chk):
             ok = o[0] == "field" and o[1][1] and o[1][1][-1] == ".event"
             chk.ob(ok, "A11.other-passthrough", f"From<InputEvent>:Other#{n}", b.where(x, st.get("line")), "Other carries the input's own event (moved out of `value.event`)", "an OutputEvent::Other is built from a re-constructed event: character data can reach the writer without the escape that Text/CData/Comment events get (ill-formed or altered output)")
     chk.floor("A11.other-passthrough", n, 3, "OutputEvent::Other construction in From<InputEvent>")
+    # ... and that conversion is the only place that makes one: an element tag that takes the `Other` route somewhere
+    # else bypasses what every Start / Empty event gets downstream (escaping on output, the class scan of the style
+    # pass, the canonical re-serialisation that makes a second run a no-op)
+    elsewhere = []
+    for fb in prog.bodies.values():
+        if fb.unit != "svgdx-lib" or fb.path == b.path or fb.path.endswith("as std::clone::Clone>::clone"):
+            continue
+        for x, i, st in fb.all_stmts():
+            rv = st.get("rv")
+            if rv and rv.get("k") == "aggr" and rv.get("adt") == "svgdx::events::OutputEvent" and rv.get("variant") == "Other":
+                elsewhere.append(fb.where(x, st.get("line")))
+    chk.ob(not elsewhere, "A11.other-passthrough", "only-in-From<InputEvent>", b.where(), "OutputEvent::Other is made only by the InputEvent -> OutputEvent conversion (for events that are not element tags, and tags that cannot be read)", f"OutputEvent::Other is also constructed at {elsewhere}: element tags wrapped there reach the output without passing through SvgElement - not escaped / re-serialised like every other tag, invisible to the style pass")
